@@ -36,8 +36,10 @@ pub enum Probe {
     SenderDropDecremented = 21,
     TokenRemoved = 22,
     FreeDeferred = 23,
+    /// pseudo-probe: a raw dereference of queue bookkeeping (the `touch` hook)
+    RawDeref = 24,
 }
-pub const N_PROBES: usize = 24;
+pub const N_PROBES: usize = 25;
 pub const PROBE_NAMES: [&str; N_PROBES] = [
     "commit_cas_lost_race",
     "pin_conflict_full",
@@ -63,6 +65,7 @@ pub const PROBE_NAMES: [&str; N_PROBES] = [
     "sender_drop_decremented",
     "token_removed",
     "free_deferred",
+    "raw_deref",
 ];
 
 /// Fault kinds that are counted when they actually fire.
@@ -169,6 +172,8 @@ pub struct Rt {
     /// also yield *after* every write (store / RMW / successful CAS): exposes the non-atomic
     /// code that follows a publication (e.g. a tag stored before the value is written)
     pub post_write: Cell<bool>,
+    /// scheduling points also after every load / failed CAS
+    pub post_load: Cell<bool>,
 }
 
 impl Rt {
@@ -207,6 +212,7 @@ impl Rt {
             stop: Cell::new(false),
             trace: Cell::new(false),
             post_write: Cell::new(false),
+            post_load: Cell::new(false),
         }
     }
 
@@ -249,6 +255,7 @@ impl Rt {
         self.seam_live_blocks.set(0);
         self.stop.set(false);
         self.post_write.set(false);
+        self.post_load.set(false);
     }
 
     #[inline]
